@@ -193,6 +193,7 @@ type syncConfig struct {
 	events     []string // trigger | extend | reorg
 	confirmErr []int    // heights at which the processor's ConfirmTx fails once (transient collaborator error)
 	fetchErr   int      // > 0: the store's FetchBlockTxIDs fails once, at this call (transient storage error during the walk-back)
+	lockedRepo bool     // every call into the header repository is a switch point (its own lock), so that several reads of one round can be separated by an arriving header
 	forkAt     int
 	forkLen    int
 }
@@ -215,6 +216,9 @@ func (c syncConfig) name() string {
 	}
 	if c.fetchErr > 0 {
 		s += fmt.Sprintf("-fetch-error-at-call-%d", c.fetchErr)
+	}
+	if c.lockedRepo {
+		s += "-repository-calls-are-switch-points"
 	}
 	if len(c.events) > 0 {
 		s += "+" + strings.Join(c.events, "+")
@@ -262,7 +266,11 @@ func syncScenario(c syncConfig) func() func() []string {
 		cfg.ConcurrentBlockRequests = c.concurrent
 		cfg.BlockRequestDelay = config.NewDuration(5 * time.Second)
 		bm := bitcoin_reader.NewBlockManager(store, src, c.concurrent, 5*time.Second)
-		nm := bitcoin_reader.NewNodeManager("/verif/", cfg, repo, nil)
+		var nmHeaders bitcoin_reader.HeaderRepository = repo
+		if c.lockedRepo {
+			nmHeaders = lockedHeaders{Repository: repo, mu: &vsched.Mutex{}}
+		}
+		nm := bitcoin_reader.NewNodeManager("/verif/", cfg, nmHeaders, nil)
 		nm.SetBlockManager(store, bm, proc)
 
 		bmInterrupt := make(chan interface{})
@@ -290,12 +298,12 @@ func syncScenario(c syncConfig) func() func() []string {
 					nm.TriggerBlockSynchronize(bg)
 				case "extend":
 					hc := chain.main[c.length].header.Copy()
-					repo.ProcessHeader(bg, &hc)
+					nmHeaders.ProcessHeader(bg, &hc)
 					nm.TriggerBlockSynchronize(bg)
 				case "reorg":
 					for _, b := range chain.fork {
 						hc := b.header.Copy()
-						repo.ProcessHeader(bg, &hc)
+						nmHeaders.ProcessHeader(bg, &hc)
 					}
 					nm.TriggerBlockSynchronize(bg)
 				}
@@ -422,6 +430,9 @@ func c05Scenarios(thorough bool) []*scenario {
 		}
 		if !thorough {
 			bounds = []int{0} // every ordering at call granularity; the property does not quantify over schedules
+			if c.lockedRepo {
+				bounds = []int{0, 1} // the arriving header has to preempt the round between two of its reads
+			}
 		}
 		r = append(r, &scenario{name: c.name(), bounds: bounds, body: syncScenario(c), steps: 30000})
 	}
@@ -467,6 +478,14 @@ func c05Scenarios(thorough bool) []*scenario {
 	}
 	add(syncConfig{length: 3, start: 1, processed: []int{1}, fetchErr: 1, events: []string{"trigger-later"}}, 0)
 	add(syncConfig{length: 3, start: 1, fetchErr: 1, events: []string{"trigger", "trigger-later"}}, 0, 1)
+	// a header (or a reorganisation) arriving between two reads of the header repository inside one
+	// round: the tip hash and the heights used by the round must belong together
+	add(syncConfig{length: 2, start: 3, lockedRepo: true, events: []string{"extend"}}, 0, 1, 2)
+	add(syncConfig{length: 2, start: 2, lockedRepo: true, events: []string{"extend"}}, 0, 1, 2)
+	if thorough {
+		add(syncConfig{length: 3, start: 1, processed: []int{1}, lockedRepo: true, events: []string{"extend"}}, 0, 1)
+		add(syncConfig{length: 3, start: 1, lockedRepo: true, events: []string{"reorg"}, forkAt: 1, forkLen: 2}, 0, 1)
+	}
 	// one healthy but slow source and nobody else to ask: the reader keeps waiting for it (every
 	// further request for the block finds no node), and goes on when the block arrives
 	add(syncConfig{length: 2, start: 1, concurrent: 2, script: map[string][]string{"a1": {"slow", "none*"}}}, 0)
